@@ -764,3 +764,45 @@ func MapKeys[M ~map[K]V, K interface{ ~string | ~int | ~int32 | ~int64 | ~uint64
 	s.mu.Unlock()
 	return keys
 }
+
+// ---------------------------------------------------------------- call wrappers
+//
+// W<params><results>(site, f) returns a function with f's signature that yields
+// and then calls f. simgen rewrites an interesting call f(args) into
+// W..(site, f)(args): the arguments are evaluated first and the scheduling
+// point sits directly before the operation itself, so that a read-modify-write
+// composed of two individually atomic operations (x.Store(x.Load()+1)) can lose
+// updates under the serialising scheduler exactly as it can on real hardware.
+
+func W00(site string, f func()) func() { return func() { Yield(site); f() } }
+func W01[R any](site string, f func() R) func() R {
+	return func() R { Yield(site); return f() }
+}
+func W02[R, S any](site string, f func() (R, S)) func() (R, S) {
+	return func() (R, S) { Yield(site); return f() }
+}
+func W10[A any](site string, f func(A)) func(A) { return func(a A) { Yield(site); f(a) } }
+func W11[A, R any](site string, f func(A) R) func(A) R {
+	return func(a A) R { Yield(site); return f(a) }
+}
+func W12[A, R, S any](site string, f func(A) (R, S)) func(A) (R, S) {
+	return func(a A) (R, S) { Yield(site); return f(a) }
+}
+func W20[A, B any](site string, f func(A, B)) func(A, B) {
+	return func(a A, b B) { Yield(site); f(a, b) }
+}
+func W21[A, B, R any](site string, f func(A, B) R) func(A, B) R {
+	return func(a A, b B) R { Yield(site); return f(a, b) }
+}
+func W22[A, B, R, S any](site string, f func(A, B) (R, S)) func(A, B) (R, S) {
+	return func(a A, b B) (R, S) { Yield(site); return f(a, b) }
+}
+func W30[A, B, C any](site string, f func(A, B, C)) func(A, B, C) {
+	return func(a A, b B, c C) { Yield(site); f(a, b, c) }
+}
+func W31[A, B, C, R any](site string, f func(A, B, C) R) func(A, B, C) R {
+	return func(a A, b B, c C) R { Yield(site); return f(a, b, c) }
+}
+func W32[A, B, C, R, S any](site string, f func(A, B, C) (R, S)) func(A, B, C) (R, S) {
+	return func(a A, b B, c C) (R, S) { Yield(site); return f(a, b, c) }
+}
